@@ -3,7 +3,10 @@
 (* info, Info.accepts, masks_compatible).  Fields take abstract values:     *)
 (*   time  "none" | "t"                                                     *)
 (*   grid  "none" | "g" | "g2" (same geometry, other layout) | "h" (other   *)
-(*         geometry) | "nogrid"                                             *)
+(*         geometry) | "gc" (the node coordinates of g in another           *)
+(*         coordinate reference system) | "nogrid"                          *)
+(*   units additionally "ms", "kms", "s2": products with seconds, as the    *)
+(*         units-rewriting SumOverTime adapter produces them                *)
 (*   units "none" | "m" | "km" | "s"                                        *)
 (*   mask  "flex" | "nomask" (Mask.NONE) | "M" | "N" (two different masks,  *)
 (*         each expressed in the layout of the info's own grid) | "E" (a    *)
@@ -15,14 +18,15 @@
 EXTENDS FinamBase, TLC
 
 Info(t, g, u, m, f) == [time |-> t, grid |-> g, units |-> u, mask |-> m, foo |-> f]
-GridOK(i) == (i.mask \in {"M", "N", "E"}) => i.grid \in {"g", "g2", "h"}     \* a fixed mask presupposes a structured grid
-PInfos == {i \in {Info(t, g, u, m, f) : t \in {"none", "t"}, g \in {"none", "g", "g2", "h", "nogrid"},
+GridOK(i) == (i.mask \in {"M", "N", "E"}) => i.grid \in {"g", "g2", "h", "gc"}     \* a fixed mask presupposes a structured grid
+PInfos == {i \in {Info(t, g, u, m, f) : t \in {"none", "t"}, g \in {"none", "g", "g2", "h", "gc", "nogrid"},
                     u \in {"none", "m", "km", "s"}, m \in {"flex", "nomask", "M", "N", "E", "E0"}, f \in {"absent", "none", "v"}} : GridOK(i)}
-CInfos == {i \in {Info(t, g, u, m, f) : t \in {"none", "t"}, g \in {"none", "g", "g2", "h", "nogrid"},
+CInfos == {i \in {Info(t, g, u, m, f) : t \in {"none", "t"}, g \in {"none", "g", "g2", "h", "gc", "nogrid"},
                     u \in {"none", "m", "km", "s"}, m \in {"flex", "nomask", "M", "N", "E", "E0"}, f \in {"absent", "none", "v", "w"}} : GridOK(i)}
 
 SameLocations(a, b) == a = b \/ {a, b} = {"g", "g2"}
-Dim(u) == IF u = "s" THEN "time" ELSE "length"
+Dim(u) == CASE u = "s" -> "time" [] u \in {"ms", "kms"} -> "length*time" [] u = "s2" -> "time2" [] OTHER -> "length"
+TimesS(u) == CASE u = "m" -> "ms" [] u = "km" -> "kms" [] u = "s" -> "s2" [] OTHER -> u
 Specified(m) == m \in {"M", "N", "E", "E0"}
 NormMask(m) == IF m = "E0" THEN "E" ELSE m
 
@@ -70,6 +74,16 @@ Unfillable(po, ci) == (po.grid = "none" /\ ci.grid = "none") \/ (po.time = "none
                       \/ (po.units = "none" /\ ci.units = "none") \/ (po.foo = "none" /\ ci.foo \in {"absent", "none"})
 
 (* case space: PInfos x CInfos x {direct, pass} (the harness forms the product of the emitted factors) *)
+(* through SumOverTime(per_time=True): upstream is asked without units, downstream gets the  *)
+(* producer's units times seconds                                                             *)
+ExchangeSum(po, ci) ==
+  LET up == Exchange(po, [ci EXCEPT !.units = "none"]) IN
+  IF up.res # "ok" THEN up
+  ELSE LET ad == [up.out EXCEPT !.units = TimesS(@)] IN
+       IF ci.units # "none" /\ Dim(ci.units) # Dim(ad.units) THEN [res |-> "FinamMetaDataError", out |-> up.out, inp |-> ci]
+       ELSE [res |-> "ok", out |-> up.out,
+             inp |-> [up.inp EXCEPT !.units = IF ci.units = "none" THEN ad.units ELSE ci.units]]
+
 (* two consumers on one output: the second is checked against what the first filled in *)
 Exchange2(po, c1, c2) ==
   LET r1 == Exchange(po, c1) IN
